@@ -24,8 +24,8 @@ TRUSTED = [
     "write into library structs (counter located by a probe of the library itself)",
 ]
 ASSUMPTIONS = [
-    "message bit length below 2^64 (SHA-224/256 streaming theorems) resp. below 2^96 (SHA-384/512: the first length at which the compiled "
-    "AddLength test fires, finding C14-ext-1; FIPS 180-4 allows 2^128); BLAKE2s: fewer than 2^64 - 64 bytes",
+    "message bit length below 2^64 (SHA-224/256 streaming theorems) resp. below 2^128 (SHA-384/512) - the bounds of FIPS 180-4; "
+    "BLAKE2s: fewer than 2^64 - 64 bytes",
     "md_map_* pass a size_t length to SHA*Input(unsigned int): messages of 4 GiB and more are outside the presented range",
     "AES-CBC theorems: 16-byte IV, key of 16/24/32 bytes (other key sizes: rejection is modelled and compared)",
 ]
@@ -146,8 +146,8 @@ def gen_stream_lines(rng, tier):
                     ["=", ".", "="], [hexs(m), "=", "00", "="], [".", "=", "."]):
             out.append("md_stream %s %s" % (alg, " ".join(pat)))
         out.append("md_stream %s" % alg)                       # no Input call at all
-        # the counter test of SHA*_AddLength (counter preset just below the values where the test of the compiled code fires:
-        # 2^64 for sha224-256.c; k*2^96 and 2^128 for the 32-bit-word variant of sha384-512.c; 2^64 must NOT fire there)
+        # the counter test of SHA*_AddLength (counter preset just below the values where a test fires or fired once:
+        # 2^64 for sha224-256.c; 2^128 for sha384-512.c; k*2^96 (fixed: 91cb094, C14-ext-1) and 2^64 must NOT fire there)
         if bs == 64:
             presets = [(1 << 64) - 8, (1 << 64) - 16, (1 << 64) - 24, (1 << 32) - 8, (1 << 63), 0x1234567800]
         else:
@@ -286,19 +286,6 @@ def nontrivial(r):
 def matches_finding(f, r):
     t = r["line"].split()
     pred = f.get("pred")
-    if pred == "sha512_refuses_at_multiples_of_2_96":
-        # exactly: SHA-384/512, counter preset p, n bytes fed; walking the counter in steps of 8 bits, the FIRST value at which the
-        # compiled test (low 96 bits zero and top word < 8) fires is k*2^96 with 1 <= k <= 7 (not the true wrap to 0), and the
-        # library reported an error
-        if t[0] != "md_stream_len" or t[1] not in ("sh384", "sh512") or r["got"] != "err":
-            return False
-        p = int(t[2], 16)
-        n = sum(0 if x == "." else len(x) // 2 for x in t[3:])
-        for j in range(1, n + 1):
-            v = (p + 8 * j) % (1 << 128)
-            if v % (1 << 96) == 0 and v >> 96 < 8:
-                return v != 0
-        return False
     if pred == "aes_empty_plaintext":
         if t[0] == "aes_enc" and t[4] == ".":
             return True
